@@ -289,7 +289,10 @@ CLAIMS = {
              "For CheckCommentLineLen (model pinned by fingerprint and limits, replayed by the driver) it is proved which lines of "
              "a comment token are reported: line l0 + i of a block comment iff the i-th line of its value, the first behind c0 - 1 "
              "columns of padding, is longer than 80, the lines joined by newlines being exactly the value; a // comment iff its "
-             "last character lies beyond column 80 (C03_block_comment_check_iff, C03_line_comment_check_iff).  "
+             "last character lies beyond column 80 (C03_block_comment_check_iff, C03_line_comment_check_iff); and the measured "
+             "LENGTH is a visual width: for comment text without newline, backslash, ?, <, : and % the normalisation of C10 "
+             "(tabs expanded at the true column) makes c0 - 1 + len(first line) the column of that line's last character and "
+             "len(later line) its width by the independent position scanner (C03_comment_value_length_is_visual_width).  "
              "THE 25 LINES: over a trace model of the scope bookkeeping generated from the source on every run (Scope.outer/"
              "get_outer, Context.update, CheckLineCount.run, the line test of CheckBrace, the history scan of IsBlockStart, the "
              "effect of IsBlockEnd), for EVERY well-nested function body (any nesting of braced blocks and chains of brace-less "
